@@ -3,6 +3,7 @@
 apply the patch there, run the given checks against the copy (VERIF_REPO), print their verdicts, remove the copy.
 Evidence files are restored afterwards (they must come from runs against /repo itself)."""
 import sys, os, subprocess, shutil, tempfile
+ROOT = os.path.dirname(os.path.dirname(os.path.abspath(__file__)))
 args = sys.argv[1:]
 tier = "quick"
 if "--tier" in args:
@@ -20,7 +21,7 @@ try:
     if r.returncode != 0:
         print("BUILD-FAILED\n" + r.stderr); sys.exit(3)
     for pr in props:
-        r = subprocess.run(["/verif/check", tier, pr], env=dict(env, VERIF_REPO=d), capture_output=True, text=True)
+        r = subprocess.run([os.path.join(ROOT, "check"), tier, pr], env=dict(env, VERIF_REPO=d), capture_output=True, text=True)
         lines = (r.stdout + r.stderr).strip().split("\n")
         viol = [l for l in lines if l.startswith("VIOLATION")]
         print("== %s rc=%d violations=%d" % (pr, r.returncode, len(viol)))
@@ -30,5 +31,5 @@ try:
             rc_all = 1
 finally:
     shutil.rmtree(d, ignore_errors=True)
-    subprocess.run("git -C /verif checkout -- evidence 2>/dev/null", shell=True)
+    subprocess.run("git -C %s checkout -- evidence 2>/dev/null" % ROOT, shell=True)
 sys.exit(rc_all)
